@@ -31,6 +31,25 @@ def mc(name, clients=("c1", "c2"), maxops=2, ops=("send", "call", "ping", "stop"
             "Names": "<- " + names, "must_cover": list(must_cover)}
 
 
+def gen(name, main, clients=("main", "c1", "c2"), maxops=2, ops=("send", "call", "stop"), scripts="ScriptsPlain", horizon=0, idle=False,
+        faults=(), maxfaults=0, limit_quick=1500, limit_thorough=20000):
+    m = mc(name, clients=clients, maxops=maxops, ops=ops, scripts=scripts, horizon=horizon, idle=idle, faults=faults, maxfaults=maxfaults)
+    m["MainProg"] = "<- " + main
+    m["limit"] = {"quick": limit_quick, "thorough": limit_thorough}
+    return m
+
+
+def gen_cfg(m, invariants):
+    lines = ["SPECIFICATION GSpec", "CONSTANTS", "  Dev = " + S(*sorted(active_dev()))]
+    for k, v in m.items():
+        if k in ("name", "must_cover", "limit"):
+            continue
+        lines.append(f"  {k} {v}" if str(v).startswith("<-") else f"  {k} = {v}")
+    lines.append("INVARIANTS Emit " + " ".join(i for i in invariants if not i.startswith("Term_")))
+    lines.append("CHECK_DEADLOCK FALSE")
+    return "\n".join(lines) + "\n"
+
+
 def mc_cfg(m, invariants, dev=None):
     dev = active_dev() if dev is None else dev
     lines = ["SPECIFICATION MCSpec", "CONSTANTS", "  Dev = " + S(*sorted(dev))]
@@ -59,21 +78,23 @@ PROPS = {
         "mc": {"quick": [mc("Core-addr-2x2", must_cover=SUBMIT), mc("Core-sc-2x2", kinds="InitKindsSC", must_cover=SUBMITW)],
                "thorough": [mc("Core-addr-2x3", maxops=3, must_cover=SUBMIT), mc("Core-sc-2x3", maxops=3, kinds="InitKindsSC"),
                             mc("Core-weak-3x2", clients=C3, kinds="InitKindsWeak", cfgs="CfgsB1")]},
-        "families": [("core", 250, 2500)],
+        "gen": {"quick": [gen("g-addr-b1-2x2", "Main_Addr2_B1", ops=("send", "call", "ping"))], "thorough": [gen("g-addr-b1-2x2", "Main_Addr2_B1", ops=("send", "call", "ping")), gen("g-sc-b1-2x2", "Main_SC_B1", ops=("send", "call"), scripts="ScriptsCore"), gen("g-addr-b0-2x3", "Main_Addr2_B0", maxops=3, ops=("send", "call"))]},
+        "families": [("core", 250, 2500), ("timers", 60, 600), ("stream", 60, 600)],
         "relevant": r'"ev":"h_begin"', "relevant_min": 2,
     },
     "C02": {
         "invariants": ["C02"],
         "mc": {"quick": [mc("Core-addr-2x2", must_cover=SUBMIT), mc("Core-sc-2x2", kinds="InitKindsSC", must_cover=SUBMITW)],
                "thorough": [mc("Core-addr-2x3", maxops=3), mc("Core-sc-2x3", maxops=3, kinds="InitKindsSC")]},
-        "families": [("core", 200, 2000), ("life", 100, 1000)],
+        "gen": {"quick": [gen("g-sc-b1-2x2", "Main_SC_B1", ops=("send", "call", "drop"))], "thorough": [gen("g-sc-b1-2x2", "Main_SC_B1", ops=("send", "call", "drop"), scripts="ScriptsCore"), gen("g-cancel-2x2", "Main_Addr2_B1", ops=("send", "call"), faults=("cancel",), maxfaults=1)]},
+        "families": [("core", 200, 2000), ("life", 100, 1000), ("fail", 100, 1000)],
         "relevant": r'"op":"call"', "relevant_min": 1,
     },
     "C03": {
         "invariants": ["C03"],
         "mc": {"quick": [mc("Life-stop-2x2", ops=("send", "stop", "drop", "halt"), scripts="ScriptsStop", cfgs="CfgsTwo", must_cover=("StopTaken", "MailboxClosed", "StoppedEnd"))],
                "thorough": [mc("Life-stop-2x3", maxops=3, ops=("send", "call", "stop", "drop", "halt"), scripts="ScriptsStop")]},
-        "families": [("life", 250, 2500)],
+        "families": [("life", 200, 2000), ("restart", 80, 800), ("stream", 80, 800), ("timeout", 100, 1000), ("fail", 60, 600)],
         "relevant": r'"ev":"cb"', "relevant_min": 3,
     },
     "C04": {
@@ -82,7 +103,8 @@ PROPS = {
                          mc("Stop-aw-2x2", ops=AWOPS, kinds="InitKindsAW", cfgs="CfgsB1", must_cover=("AwaitReturn",))],
                "thorough": [mc("Stop-2x3", maxops=3, ops=STOPOPS, scripts="ScriptsStop", cfgs="CfgsTwo"),
                             mc("Stop-aw-3x2", clients=C3, ops=AWOPS, kinds="InitKindsAW", cfgs="CfgsB1")]},
-        "families": [("life", 250, 2500)],
+        "gen": {"quick": [gen("g-stop-2x2", "Main_Addr2_B1", ops=("send", "call", "stop", "halt", "await"))], "thorough": [gen("g-stop-2x2", "Main_Addr2_B1", ops=("send", "call", "stop", "halt", "await"), scripts="ScriptsStop"), gen("g-aw-2x2", "Main_AW_Unb", ops=("send", "stop", "try_stop", "try_halt", "await_ref"))]},
+        "families": [("life", 250, 2500), ("stream", 60, 600), ("timeout", 60, 600)],
         "relevant": r'"op":"(stop|halt|try_stop|try_halt|consume|await|await_ref)"|ctx_stop', "relevant_min": 1,
     },
     "C05": {
@@ -91,7 +113,8 @@ PROPS = {
                          mc("Life-weak-2x2", ops=("send", "call", "drop", "upgrade", "clone"), kinds="InitKindsWeak", scripts="ScriptsPlain", cfgs="CfgsB1")],
                "thorough": [mc("Life-handles-2x3", maxops=3, ops=HOPS, scripts="ScriptsPlain", cfgs="CfgsTwo"),
                             mc("Life-weak-3x2", ops=("send", "call", "drop", "upgrade", "clone"), kinds="InitKindsWeak", scripts="ScriptsPlain", clients=C3, cfgs="CfgsB1")]},
-        "families": [("life", 250, 2500)],
+        "gen": {"quick": [gen("g-drop-2x2", "Main_AW_Unb", ops=("send", "drop", "upgrade", "clone"))], "thorough": [gen("g-drop-2x3", "Main_AW_Unb", maxops=3, ops=("send", "drop", "upgrade", "downgrade"))]},
+        "families": [("life", 250, 2500), ("timers", 80, 800), ("broker", 50, 500)],
         "relevant": r'"op":"(drop|upgrade|downgrade)"', "relevant_min": 1,
     },
     "C06": {
@@ -100,7 +123,7 @@ PROPS = {
                             faults=("cancel",), maxfaults=1, must_cover=("Cancel", "ScriptStep", "JoinReturn", "AwaitReturn"))],
                "thorough": [mc("Fail-own-2x3", maxops=3, ops=("send", "call", "await", "join", "stopped", "ping"), scripts="ScriptsFail", cfgs="CfgsFailOwn", kinds="InitKindsOwn", faults=("cancel",), maxfaults=1),
                             mc("Fail-3x2", clients=C3, ops=("send", "call", "await", "halt", "upgrade"), scripts="ScriptsFail", cfgs="CfgsFail", kinds="InitKindsAW", faults=("cancel",), maxfaults=2)]},
-        "families": [("fail", 300, 3000)],
+        "families": [("fail", 300, 3000), ("tree", 80, 800), ("timers", 80, 800)],
         "relevant": r'"how":"panic"|"ev":"cancel"|"e":"err"|h_abandon', "relevant_min": 1,
     },
     "C07": {
@@ -150,6 +173,7 @@ PROPS = {
                             mc("Timers-b0-1x2", clients=("c1",), maxops=2, ops=("send", "call", "stop"), scripts="ScriptsPlain", cfgs="CfgsTimers0", horizon=5),
                             mc("Timers-idle-1x2", clients=("c1",), maxops=2, ops=("send", "stop", "drop"), scripts="ScriptsPlain", cfgs="CfgsTimers", horizon=8, idle=True),
                             mc("Timers-cancel-1x2", clients=("c1",), maxops=2, ops=("send", "stop"), scripts="ScriptsFail", cfgs="CfgsTimers", horizon=4, faults=("cancel",), maxfaults=1)]},
+        "gen": {"quick": [gen("g-timer-2x1", "Main_Addr2_Timer", maxops=1, ops=("send", "stop", "drop"), horizon=4)], "thorough": [gen("g-timer-2x2", "Main_Addr2_Timer", ops=("send", "stop", "drop"), horizon=4)]},
         "families": [("timers", 300, 3000)],
         "relevant": r'timer_fire', "relevant_min": 1,
     },
@@ -161,6 +185,7 @@ PROPS = {
                "thorough": [mc("Timeout-2x2", ops=("send", "call"), scripts="ScriptsSleep", cfgs="CfgsTmo", horizon=8),
                             mc("Timeout-1x4", clients=("c1",), maxops=4, ops=("send", "call", "stop"), scripts="ScriptsSleep2", cfgs="CfgsTmo", horizon=12),
                             mc("NoTimeout-2x2", ops=("send", "call"), scripts="ScriptsSleep", cfgs="CfgsNoTmo", horizon=8)]},
+        "gen": {"quick": [gen("g-tmo-2x1", "Main_Addr2_Tmo", maxops=1, ops=("send", "call"), scripts="ScriptsSleep", horizon=6)], "thorough": [gen("g-tmo-2x2", "Main_Addr2_Tmo", ops=("send", "call"), scripts="ScriptsSleep", horizon=8)]},
         "families": [("timeout", 300, 3000)],
         "relevant": r'h_abandon|"e":"sleep"', "relevant_min": 1,
     },
@@ -168,6 +193,7 @@ PROPS = {
         "invariants": ["C12"],
         "mc": {"quick": [mc("Core-addr-2x2", must_cover=SUBMIT), mc("Core-b-2x2", kinds="InitKindsSC", cfgs="CfgsB1", ops=("send", "call", "stop"))],
                "thorough": [mc("Core-addr-2x3", maxops=3, cfgs="CfgsCore2"), mc("Core-b-3x2", clients=C3, kinds="InitKindsSC", cfgs="CfgsB1", ops=("send", "call", "stop"))]},
+        "gen": {"quick": [gen("g-addr-b0-2x2", "Main_Addr2_B0", ops=("send", "call", "stop"))], "thorough": [gen("g-addr-b0-2x3", "Main_Addr2_B0", maxops=3, ops=("send", "call")), gen("g-sc-b1-2x3", "Main_SC_B1", maxops=3, ops=("send", "call"))]},
         "families": [("core", 250, 2500)],
         "relevant": r'"op":"send"', "relevant_min": 1,
     },
@@ -193,7 +219,7 @@ PROPS = {
                "thorough": [mc("Kinds-2x3", maxops=3, ops=KOPS, scripts="ScriptsStop", cfgs="CfgsUnb", kinds="InitKindsCaller"), mc("Kinds-3x2", clients=C3, maxops=2, ops=KOPS, scripts="ScriptsStop", cfgs="CfgsUnb", kinds="InitKindsCaller"),
                             mc("Kinds-sc-2x3", maxops=3, ops=KOPS, scripts="ScriptsRestart", cfgs="CfgsUnb", kinds="InitKindsSC")]},
         "dev_demo": [("D2", mc("Kinds-2x2", ops=KOPS, scripts="ScriptsStop", cfgs="CfgsUnb", kinds="InitKindsCaller"))],
-        "families": [("life", 250, 2500)],
+        "families": [("life", 250, 2500), ("timers", 80, 800)],
         "relevant": r'"op":"(caller|sender|upgrade|weak_caller|weak_sender)"|ctx_stop', "relevant_min": 1,
     },
     "C16": {
@@ -210,7 +236,8 @@ PROPS = {
         "invariants": ["C17", "C04_AnnounceAfter"],
         "mc": {"quick": [mc("Own-2x3", maxops=3, ops=OWNOPS, scripts="ScriptsPlain", cfgs="CfgsOwn", kinds="InitKindsOwn", must_cover=("JoinBegin", "JoinReturn", "Detach"))],
                "thorough": [mc("Own-3x3", maxops=3, clients=C3, ops=OWNOPS, scripts="ScriptsStop", cfgs="CfgsOwn", kinds="InitKindsOwn")]},
-        "families": [("life", 250, 2500)],
+        "gen": {"quick": [gen("g-own-2x2", "Main_Own_B1", ops=("send", "join", "consume", "stop", "detach"))], "thorough": [gen("g-own-2x3", "Main_Own_B1", maxops=3, ops=("send", "join", "consume", "stop", "detach", "drop"))]},
+        "families": [("life", 250, 2500), ("fail", 100, 1000)],
         "relevant": r'"op":"(join|consume|consume_sync|detach)"', "relevant_min": 1,
     },
 }
